@@ -20,6 +20,7 @@ mod routesim;
 mod sandbox;
 mod shuttle_eng;
 mod views;
+mod wiresim;
 
 use framework::{Check, Tier};
 
@@ -38,6 +39,7 @@ static C14: routesim::RouteCheck = routesim::RouteCheck { prop: "C14" };
 static C05: proxysim::ProxyCheck = proxysim::ProxyCheck { prop: "C05" };
 static C09: proxysim::ProxyCheck = proxysim::ProxyCheck { prop: "C09" };
 static C20: proxysim::ProxyCheck = proxysim::ProxyCheck { prop: "C20" };
+static C17: wiresim::WireCheck = wiresim::WireCheck;
 static C11: shuttle_eng::ShuttleCheck = shuttle_eng::ShuttleCheck { prop: "C11" };
 
 static C13E1: broker::BrokerCheck = broker::BrokerCheck { prop: "C13" };
@@ -64,6 +66,7 @@ fn lookup(id: &str) -> Option<&'static dyn Check> {
         "C13" => c13(),
         "C18" => &C18,
         "C11" => &C11,
+        "C17" => &C17,
         "C05" => &C05,
         "C09" => &C09,
         "C20" => &C20,
